@@ -69,7 +69,8 @@ DoFm(S, pa, pb) ==
 
 Obs(op, S, pa, pb, r) ==
     [op |-> op, objs |-> S, first |-> r.first, repl |-> Repl, a0 |-> A, b0 |-> B, a1 |-> r.a1, b1 |-> r.b1,
-     failed |-> r.failed, res |-> r.res, code |-> r.code, missing |-> r.missing, named |-> r.named,
+     failed |-> r.failed, directFailed |-> IF r.named \cap {"repl", "sync"} = {} THEN r.failed ELSE {},
+     res |-> r.res, code |-> r.code, missing |-> r.missing, named |-> r.named,
      planA |-> pa, planB |-> pb, lossy |-> FALSE]
 
 Step(op, S, pa, pb, r) ==
